@@ -24,6 +24,7 @@ inductive Val where
   | map (addr : Nat)
   | host (name : String)      -- struct-backed object of a template function module (Math, JSON, Object)
   | attrs (l : List (String × Option Bool × String × Bool))   -- []Attribute: (name, boolVal, val, mustEscape)
+  | bblock (id : Nat)         -- *boundBlock: the block of a mixin call together with the scope that made the call
   deriving Repr, DecidableEq, Inhabited
 
 /-- `*Map`: items (unique keys, kept in insertion order here; Go's map is unordered) and the explicit
